@@ -102,6 +102,9 @@ func oneSame(in *Input) (finds []sameFinding, digest string, stmts int) {
 	add := func(key, what string, det map[string]any) {
 		finds = append(finds, sameFinding{"same|" + d + "|" + key, in.Name + ": " + what, det})
 	}
+	if err := rawErr(in); err != nil {
+		return nil, rt.Digest(in.Name, "rejected", err.Error()), 0
+	}
 	// ---- (a) same change slice, planned R times
 	pa := newPair(in)
 	fa0, ta0 := pa.hcl()
